@@ -83,6 +83,21 @@ static std::string handle(const Case& c) {
             default: return "unsupported";
         }
     }
+    // ---- two possibly-empty stage results as the operands of a binary view, in either position
+    if (op == "pipe2") {
+        int k = (int)c.args[1].val;
+        auto ra = view::reshape(a, iv(c.args[2]));
+        auto rb = view::reshape(a, iv(c.args[3]));
+        switch (k) {
+            case 0: return status(view::matmul(ra, rb));
+            case 1: return status(na::eval(view::matmul(ra, rb)));
+            case 2: return status(view::concatenate(ra, rb, 0));
+            case 3: return status(view::add(rb, ra));
+            case 4: return status(view::matmul(view::transpose(rb), view::transpose(ra)));
+            case 5: return status(view::sum(view::matmul(ra, rb), 0));
+            default: return "unsupported";
+        }
+    }
     return "unsupported";
 }
 
